@@ -120,6 +120,13 @@ def runOp (env : Env) (v : Vec) (name : String) (args : List Nat) (o : List Outc
   | "resize", [n, id] => some (pack showUnit (resize env v n id o))
   | "resize_with", [n] => some (pack showUnit (resizeWith env v n o))
   | "pop_if", [] => some (pack showOptId (popIf v o))
+  | "dedup_by_key", [] => some (pack showUnit (dedupByKey env.bombs v o))
+  | "extend_from_within_clone", [a, b] => some (pack showUnit (extendFromWithinClone env v a b o))
+  | "reserve", [n] =>
+    some (.ok (match reserve env v n with | some v' => (v', "ret", o) | none => (v, "panic", o)))
+  | "reserve_exact", [n] =>
+    some (.ok (match reserveExact env v n with | some v' => (v', "ret", o) | none => (v, "panic", o)))
+  | "shrink_to_fit", [] => some (.ok (shrinkToFit env v, "ret", o))
   | _, _ => none
 
 def showYields (l : List (Option Id)) : String :=
@@ -171,6 +178,12 @@ def runRevOp (env : Env) (v : Vec) (name : String) (args : List Nat) (o : List O
   | "swap_remove", [i] => some (keep (pack showId (rswapRemove v i)), false)
   | "extend_clone", [n] => some (pack showUnit (rextendFromSliceClone env v n o), false)
   | "resize", [n, id] => some (pack showUnit (rresize env v n id o), false)
+  | "resize_with", [n] => some (pack showUnit (rresizeWith env v n o), false)
+  | "pop_if", [] => some (pack showOptId (rpopIf v o), false)
+  | "reserve", [n] =>
+    some (.ok (match rreserve env v n with | some v' => (v', "ret", o) | none => (v, "panic", o)), false)
+  | "reserve_exact", [n] =>
+    some (.ok (match rreserve env v n with | some v' => (v', "ret", o) | none => (v, "panic", o)), false)
   | "into_iter", [] => do
     let script ← parseScript ((kvOf rest "s").getD "-")
     pure (keep (pack showYields (rintoIter env.bombs v script)), true)
